@@ -458,7 +458,12 @@ def evaluate(case, record=True):
             else:
                 v.stats['exec-raised'] += 1
                 # a failing Compound undoes the members already run: a Delete among them is undone
-                diffs, _ = state_diff(m, pre, post, delete_exception=has_delete(cmd))
+                diffs, tolerated = state_diff(m, pre, post, delete_exception=has_delete(cmd))
+                if tolerated and not diffs:
+                    # the order the property tolerates after undoing a Delete: later expectations are stale
+                    v.stats['delete-order-exception-used'] += 1
+                    v.stopped = ('order-changed-within-delete-exception', i)
+                    break
                 if diffs and not scope:
                     fail = ('can_execute-raised', cmd, pre, diffs,
                             ('partial-effect',) + (STALE if stale else ()),
@@ -1025,6 +1030,8 @@ def run(ctx, out):
         'oracle_counters': dict(stats),
         'word_lengths': dict(word_len),
         'commands_by_kind': dict(kinds),
+        'compounds_executed_by_member_relation': {k.split(':', 2)[2]: c for k, c in stats.items()
+                                                  if k.startswith('exec-ok:Compound:')},
         'outcomes_by_code': dict(outcomes),
         'early_stops': dict(stops),
         'templates_used': dict(tmpl),
@@ -1042,6 +1049,11 @@ def run(ctx, out):
         'nested Compounds are flattened neither by the harness nor by the model (the model has nested compounds)',
         'Delete.undo iterates Python sets (eAllReferences(), _inverse_rels): when model and implementation then differ '
         'only in the order of many-valued references the word is cut there (counted in the coverage)',
+        'Compounds: about half are built from a first member and members acting on what it changes (same slot, the '
+        'same element in another owner\'s slot = a move as Remove + Add, the opposite / container end of the element '
+        '= Remove + Set as in EMF, Set + Set, Add + Remove); the side condition, "a member would be refused on its '
+        'own in the state it meets" and the cells where undo is known to re-link by append are decided member by '
+        'member on a scratch replay of the implementation',
     ]
 
 
